@@ -242,6 +242,9 @@ class SymSpec(object):
     def concrete_array(self, data):
         return symnp.asarray(data)
 
+    def asarray(self, x):
+        return symnp.asarray(x)
+
     def is_dimarray(self, x):
         return isinstance(x, self.da.DimArray)
 
